@@ -154,7 +154,8 @@ Proof. intros l ts n n' p p'. exact (conj (cyc_next_unique l ts n n') (cyc_prev_
 Print Assumptions C02_neighbours_unique.
 
 (* Invariant over every operation history from `new`: NS / PS always are the cyclic neighbours of TS
-   in the current LAS (this is what the correspondence oracle checks after every operation). *)
+   in the current LAS (the correspondence oracle checks this on the crate after every operation from
+   Discovery on; before discovery starts the LAS content is not judged, see C02_step_oracle_sound). *)
 Theorem C02_ns_ps_invariant : forall (ts : Z) (ops : list op) (r0 r : ring),
   ring_new ts = Ok r0 -> run r0 ops = Ok r ->
   r_ts r = ts /\ cyc_next (las_ones (r_las r)) ts (r_ns r) /\ cyc_prev (las_ones (r_las r)) ts (r_ps r).
@@ -188,6 +189,23 @@ Theorem C02_oracle_decides : forall (l : list Z) (ts n p : Z),
   (cyc_nextb l ts n = true <-> cyc_next l ts n) /\ (cyc_prevb l ts p = true <-> cyc_prev l ts p).
 Proof. intros l ts n p. exact (conj (cyc_nextb_spec l ts n) (cyc_prevb_spec l ts p)). Qed.
 Print Assumptions C02_oracle_decides.
+
+(* The executable per-step oracles run on the crate's outputs are sound for the model: every model
+   step passes c02_step_ok, every reachable model state passes c02_nsps_ok.  While a station is
+   Uninitialized these oracles only judge the state machine (not LAS / NS / PS content): C02 speaks
+   about the LAS from discovery on, and C02_las_discovery holds for every LAS content at its start. *)
+Theorem C02_step_oracle_sound : forall (r : ring) (o : op) (r' : ring),
+  length (r_las r) = 128%nat -> 0 <= r_ts r < 128 ->
+  match o with OpW sa da => 0 <= sa /\ 0 <= da | _ => True end ->
+  step r o = Ok r' ->
+  c02_step_ok (r_ts r) (observe r) o (observe r') = true.
+Proof. exact step_oracle_sound. Qed.
+Print Assumptions C02_step_oracle_sound.
+
+Theorem C02_nsps_oracle_sound : forall (ts : Z) (ops : list op) (r0 r : ring),
+  ring_new ts = Ok r0 -> run r0 ops = Ok r -> c02_nsps_ok ts (observe r) = true.
+Proof. exact nsps_oracle_sound. Qed.
+Print Assumptions C02_nsps_oracle_sound.
 
 (* Non-vacuity: the unit-test ring {3, 15, 29} seen from station 7 with stale LAS content. *)
 Example C02_discovery_instance :
